@@ -58,7 +58,7 @@ func c12check(p *AllProject, r *rbT, file string, src []byte, oi int, end int) {
 	if !ok {
 		return
 	}
-	vs1, vs2, vs3, vs4 := vs, vs, vs, vs
+	vs1, vs2, vs3, vs4 := vpCopyVS(vs), vpCopyVS(vs), vpCopyVS(vs), vpCopyVS(vs)
 	def := p.FindVarDefineInfo(file, &vs1)
 	refs := p.FindReferences(file, &vs2, common.CRSReference)
 	high := p.FindReferences(file, &vs3, common.CRSHighlight)
